@@ -10,6 +10,7 @@ import OG.C20.Skip
 import OG.C20.SkipIdx
 import OG.C20.TimeCluster
 import OG.C20.SkipText
+import OG.C20.Frag
 
 namespace OG.C20
 
@@ -298,6 +299,20 @@ def stepSkip : List String → Option String
         match skipScan (minMarks rpf minRows) (answerOf segs (txMayBe contentSplit schema c)) rgs with
         | some rs => some (showRanges rs)
         | none => some "err panic"
+  | ["segr", all, frs] => do
+    let all ← parseRanges all
+    let frs ← parseRanges frs
+    some (match OG.C20.Frag.segRanges all frs with
+      | .ok rs => showRanges rs
+      | .err => "err"
+      | .panic => "err panic")
+  | ["locit", dir, limit, frs] => do
+    let limit ← limit.toNat?
+    let frs ← parseRanges frs
+    let asc ← (match dir with | "a" => some true | "d" => some false | _ => none)
+    some (match OG.C20.Frag.locIter frs asc limit with
+      | some xs => "segs " ++ ",".intercalate (xs.map toString)
+      | none => "err panic")
   | ["tcw", d, tmin, tmax, ts] => do
     let d ← d.toInt?
     let tmin ← tmin.toInt?
